@@ -13,8 +13,8 @@ import Nstd.Variant.Model
 
   This model is the one the compiled driver runs: its reference counts (of the variables'
   blocks *and* of every nested block) are printed and compared with the `ref` fields of the
-  real objects after every operation.  The refinement theorems of Props.lean are proved for
-  the variable-level model (Model.lean); for this model see `Props.lean`, section "deep model".
+  real objects after every operation.  `Props.lean` proves the refinement to a store of values
+  for this model too (`deep_refines`, all operations), next to the variable-level model (Model.lean).
 
   Temporaries follow the harness: a literal source is a temporary Variant (constructed,
   copied from, destroyed); the argument of a typed container assignment is a temporary
